@@ -574,18 +574,21 @@ func (ex *Exec) instr(in ssa.Instruction) {
 	case *ssa.Alloc:
 		et := i.Type().(*types.Pointer).Elem()
 		r := ex.newRef("new." + i.Name())
+		// Fresh memory is zero: instead of writing zeros (which would put a store
+		// between every later read and the entry heap) the never-before-visible
+		// cells at the fresh reference are assumed to hold the zero value.
 		switch u := et.Underlying().(type) {
 		case *types.Array:
 			a := vc.elemsArr(u.Elem())
-			h.set(a, fmt.Sprintf("(store %s %s %s)", h.get(a), r, vc.zero(et)))
+			vc.assume(fmt.Sprintf("(= (select %s %s) %s)", h.get(a), r, vc.zero(et)))
 		case *types.Struct:
 			for k := 0; k < u.NumFields(); k++ {
 				a := vc.fieldArr(vc.structName(et, u), u.Field(k))
-				h.set(a, fmt.Sprintf("(store %s %s %s)", h.get(a), r, vc.zero(u.Field(k).Type())))
+				vc.assume(fmt.Sprintf("(= (select %s %s) %s)", h.get(a), r, vc.zero(u.Field(k).Type())))
 			}
 		default:
 			a := vc.cellArr(et)
-			h.set(a, fmt.Sprintf("(store %s %s %s)", h.get(a), r, vc.zero(et)))
+			vc.assume(fmt.Sprintf("(= (select %s %s) %s)", h.get(a), r, vc.zero(et)))
 		}
 		ex.vals[i] = &Val{T: r}
 	case *ssa.FieldAddr:
@@ -741,14 +744,14 @@ func (ex *Exec) instr(in ssa.Instruction) {
 		et := i.Type().Underlying().(*types.Slice).Elem()
 		ex.panicOblig("make", i.Pos(), isCallExpr, fmt.Sprintf("(and (bvsle (_ bv0 64) %s) (bvsle %s %s))", ln, ln, cp))
 		a := vc.elemsArr(et)
-		h.set(a, fmt.Sprintf("(store %s %s ((as const (Array (_ BitVec 64) %s)) %s))", h.get(a), r, vc.sortOf(et), vc.zero(et)))
+		vc.assume(fmt.Sprintf("(= (select %s %s) ((as const (Array (_ BitVec 64) %s)) %s))", h.get(a), r, vc.sortOf(et), vc.zero(et)))
 		ex.setVal(i, fmt.Sprintf("(mk_slice %s (_ bv0 64) %s %s)", r, ln, cp))
 	case *ssa.MakeMap:
 		r := ex.newRef("mkmap." + i.Name())
 		mt := i.Type().Underlying().(*types.Map)
 		dom, _, ln := vc.mapArrs(mt)
-		h.set(dom, fmt.Sprintf("(store %s %s ((as const (Array %s Bool)) false))", h.get(dom), r, vc.sortOf(mt.Key())))
-		h.set(ln, fmt.Sprintf("(store %s %s (_ bv0 64))", h.get(ln), r))
+		vc.assume(fmt.Sprintf("(= (select %s %s) ((as const (Array %s Bool)) false))", h.get(dom), r, vc.sortOf(mt.Key())))
+		vc.assume(fmt.Sprintf("(= (select %s %s) (_ bv0 64))", h.get(ln), r))
 		ex.vals[i] = &Val{T: r}
 	case *ssa.MakeChan:
 		ex.vals[i] = &Val{T: ex.newRef("mkchan")}
@@ -912,7 +915,7 @@ func (ex *Exec) binop(i *ssa.BinOp) {
 		}
 		ar := map[token.Token]string{token.ADD: "fp.add", token.SUB: "fp.sub", token.MUL: "fp.mul", token.QUO: "fp.div"}
 		if o, ok := ar[i.Op]; ok {
-			ex.setVal(i, fmt.Sprintf("(%s RNE %s %s)", o, x, y))
+			ex.setVal(i, vc.fpArith(o, x, y, vc.sortOf(xt)))
 			return
 		}
 	}
@@ -1688,4 +1691,15 @@ func (ex *Exec) frame(c *Clause, env *SpecEnv, pos token.Pos) {
 		goals = []string{"true"}
 	}
 	ex.oblig("frame", "", "", pos, fmt.Sprintf("(=> %s (and %s))", g, strings.Join(goals, " ")), []string{ex.prop})
+}
+
+// fpArith encodes a floating-point +,-,*,/ either exactly (SMT FloatingPoint,
+// round-nearest-even) or, when the function's contract says "fparith
+// uninterpreted", as an uninterpreted function (sound abstraction: only
+// congruence is available to the proof).
+func (vc *VC) fpArith(op, x, y, sort string) string {
+	if vc.fpUF {
+		return vc.uf(op+"."+sortKey(sort), []string{sort, sort}, sort, x, y)
+	}
+	return fmt.Sprintf("(%s RNE %s %s)", op, x, y)
 }
